@@ -188,23 +188,26 @@ Print Assumptions C41_decode_last_encode.
 
 (* ---- repeat ---- *)
 
-(* Full statement (false of the code, see the refutation below):
-     forall s n, exists b, str_repeat s n = ROk b \/ str_repeat s n = RBadValue
-   i.e. str:repeat never lets a Go panic escape. *)
-Theorem C41_repeat_never_panics_refuted : exists s n, str_repeat s n = RPanic.
-Proof. exact str_repeat_panics. Qed.
-Print Assumptions C41_repeat_never_panics_refuted.
-
-Theorem C41_repeat_partial : forall s n,
-  ((0 <= n)%Z -> (Z.of_nat (length s) * n < two63)%Z ->
-     str_repeat s n = ROk (repeat_n (Z.to_nat n) s)
-     /\ length (repeat_n (Z.to_nat n) s) = (Z.to_nat n * length s)%nat)
-  /\ ((n < 0)%Z -> str_repeat s n = RBadValue).
+(* str:repeat, for all s and n: a negative count and a count whose product with
+   len(s) does not fit an int are refused with the bad-value exception;
+   otherwise the result is n copies (so its length is n * len(s)). *)
+Theorem C41_repeat : forall s n,
+  ((n < 0)%Z -> str_repeat s n = RBadValue)
+  /\ ((0 <= n)%Z -> (two63 <= Z.of_nat (length s) * n)%Z -> str_repeat s n = RBadValue)
+  /\ ((0 <= n)%Z -> (Z.of_nat (length s) * n < two63)%Z ->
+       str_repeat s n = ROk (repeat_n (Z.to_nat n) s)
+       /\ length (repeat_n (Z.to_nat n) s) = (Z.to_nat n * length s)%nat).
 Proof.
-  exact (fun s n => conj (fun H1 H2 => conj (str_repeat_fits s n H1 H2) (repeat_n_length _ s))
-                         (str_repeat_negative s n)).
+  exact (fun s n => conj (str_repeat_negative s n) (conj (str_repeat_too_large s n)
+           (fun H1 H2 => conj (str_repeat_fits s n H1 H2) (repeat_n_length _ s)))).
 Qed.
-Print Assumptions C41_repeat_partial.
+Print Assumptions C41_repeat.
+
+(* no Go panic escapes str:repeat *)
+Theorem C41_repeat_never_panics : forall s n,
+  (exists b, str_repeat s n = ROk b) \/ str_repeat s n = RBadValue.
+Proof. exact str_repeat_never_panics. Qed.
+Print Assumptions C41_repeat_never_panics.
 
 Theorem C41_repeat_add : forall n m s, repeat_n (n + m) s = repeat_n n s ++ repeat_n m s.
 Proof. exact repeat_n_add. Qed.
